@@ -32,6 +32,13 @@ type Result struct {
 	Actual int
 	Err    error
 	Panic  string
+	Shared string // set when overwriting the spare capacity of one returned part changed another part
+}
+
+func (r *Result) checkOwnership() {
+	if i, j, sh := vk.SharedSpare(r.Parts); sh {
+		r.Shared = fmt.Sprintf("appending to part %d of %d (writing into its spare capacity) changed part %d: the parts of one result share a backing array without their capacity being limited to their length", i+1, len(r.Parts), j+1)
+	}
 }
 
 // KindOf maps a protocol's data-coding number to the reference coding; ok=false for invalid numbers.
@@ -75,6 +82,7 @@ func Run(c Case) Result {
 			r.Parts, r.Actual, r.Err = parts, int(act), err
 		}
 	})
+	r.checkOwnership()
 	return r
 }
 
@@ -99,6 +107,7 @@ func RunBatch(c Case) Result {
 			r.Actual = int(a)
 		}
 	})
+	r.checkOwnership()
 	return r
 }
 
@@ -242,6 +251,9 @@ func dfsPacked(payloads [][]byte, U []byte, i, pos int) ([][]byte, bool) {
 
 // Content is the C06 oracle.
 func Content(c Case, r Result) *vk.Violation {
+	if r.Shared != "" {
+		return vk.Violf(key(c, "parts-share-memory"), c, "%s", r.Shared)
+	}
 	text := c.TextString()
 	if r.Panic != "" {
 		return vk.Violf(key(c, "panic"), c, "split panicked\n%s", r.Panic)
@@ -284,6 +296,9 @@ func NeedsMoreThan255(c Case) bool {
 
 // Shape is the producing side of the C07 oracle.
 func Shape(c Case, r Result) *vk.Violation {
+	if r.Shared != "" {
+		return vk.Violf(key(c, "parts-share-memory"), c, "%s", r.Shared)
+	}
 	if r.Panic != "" {
 		return vk.Violf(key(c, "panic"), c, "split panicked\n%s", r.Panic)
 	}
@@ -362,6 +377,9 @@ func lastHeader(parts [][]byte) []byte {
 // Boundaries is the C14 oracle: every part decodes on its own and the
 // concatenation of the per-part texts is the original.
 func Boundaries(c Case, r Result) *vk.Violation {
+	if r.Shared != "" {
+		return vk.Violf(key(c, "parts-share-memory"), c, "%s", r.Shared)
+	}
 	if r.Panic != "" || r.Err != nil {
 		return nil // C06/C07
 	}
